@@ -1364,7 +1364,8 @@ class EdgeQLSourceGenerator(codegen.SourceGenerator):
             if node.parent is not None:
                 self.write(ident_to_str(node.parent.name))
             else:
-                self._write_keywords('initial')
+                # (a name, not a keyword: must keep its case)
+                self.write('initial')
         if node.body.text:
             self.write(' {')
             self._block_ws(1)
